@@ -713,6 +713,9 @@ func c50GenSession(rt *rapid.T) *c50Session {
 	s.NoNonceURL = rapid.IntRange(0, 7).Draw(rt, "noNonceURL") == 0
 	s.Terms = rapid.IntRange(0, 3).Draw(rt, "terms") == 0
 	nOps := rapid.IntRange(1, 7).Draw(rt, "nOps")
+	if rapid.IntRange(0, 9).Draw(rt, "longHistory") == 5 {
+		nOps = rapid.IntRange(8, 16).Draw(rt, "nOpsLong") // long reuse of one Client: nonce pool, cached directory and key ID carry over
+	}
 	group := 0
 	for i := 0; i < nOps; i++ {
 		op := &c50Op{}
